@@ -252,7 +252,14 @@ fn rotate(
     }
 
     compression.compress(&file, &dst_0).map_err(|e| {
-        println!("err compressing: {:?}, dst: {:?}", file, dst_0);
+        use std::io::Write;
+        // never panic here: the error itself is returned to the caller
+        let _ = writeln!(
+            io::stderr(),
+            "log4rs: err compressing: {:?}, dst: {:?}",
+            file,
+            dst_0
+        );
         e
     })?;
     Ok(())
